@@ -102,9 +102,11 @@ def rom_decode_cmds(plain):
     return out
 
 
-def py_rom21(file, kek, pub):
+def py_rom21(file, kek, pub, structural=False):
     """Process an SB 2.1 file the way the loader does. pub = (n, e) of the signing certificate.
-    Returns dict(header fields, sections [(uid, cmds)]). Raises RomReject."""
+    Returns dict(header fields, sections [(uid, cmds)]). Raises RomReject.
+    structural=True: ignore first_boot_tag_block / image_blocks and take the sections to be everything after the
+    signature (used only to keep looking for other defects in files that fall into the known class C04-F2)."""
     from cryptography.hazmat.primitives import keywrap
     from cryptography.hazmat.primitives.ciphers import Cipher, algorithms, modes
     if len(file) < 208:
@@ -140,6 +142,8 @@ def py_rom21(file, kek, pub):
     if not rsa_pkcs1v15_sha256_verify(pub[0], pub[1], file[:signed_len], sig):
         raise RomReject("signature")
     start, stop = first_boot_tag_block * 16, image_blocks * 16
+    if structural:
+        start, stop = signed_len + k, len(file)
     if not (signed_len + k <= start < stop <= len(file)):
         raise RomReject(f"block counts: first boot tag {start}, image end {stop}, signature ends {signed_len + k}, file {len(file)}")
     img = file[:stop]
@@ -400,8 +404,9 @@ def rom_cmd_value(c):
 
 
 THEOREM_FILES = ["cmd_roundtrip", "rom_cmd_decodes", "cmd_stream_roundtrip", "header_roundtrip", "layouts_agree",
-                 "counter_agreement", "hmac_groups_cover", "rom_section_decodes", "rom21_build", "rom21_build_sha_refuted",
-                 "sections_all", "coverage21", "keyblob_unwraps", "parse21_first_section", "parse21_sections_refuted"]
+                 "counter_agreement", "hmac_groups_cover", "keyblob_unwraps", "rom_section_decodes",
+                 "rom21_build_except_known", "rom21_build_fixed", "rom21_build_sha_refuted", "sections_all", "coverage21",
+                 "parse21_first_section", "parse21_refuted"]
 
 
 def run(tier):
@@ -483,35 +488,45 @@ def run(tier):
         pub = (int(ci["n"]), ci["e"])
         sha = bool(case["flags"] & SHA_BIT)
         # --- the independent ROM reference processes the file and sees exactly what was given
+        r = None
         try:
             r = py_rom21(data, bytes.fromhex(case["kek"]), pub)
-            sig_of[i] = (r["signed_len"], r["sig"])
-            problems = []
-            if len(r["secs"]) != len(case["secs"]):
-                problems.append(f"{len(r['secs'])} sections decoded, {len(case['secs'])} given")
-            for (uid, cmds), s in zip(r["secs"], case["secs"]):
-                if uid != s["uid"]:
-                    problems.append(f"section id {uid} != {s['uid']}")
-                want = [spec_cmd(c) for c in s["cmds"]]
-                if len(want) != len(cmds) or not all(cmd_matches(w, g) for w, g in zip(want, cmds)):
-                    problems.append(f"commands of section {s['uid']} differ: given {want!r}, ROM sees {cmds!r}"[:600])
-            if r["flags"] != case["flags"] or r["build"] != case["build"] or r["pv"] != bcd(case["pv"]) or r["cv"] != bcd(case["cv"]) \
-                    or r["ts"] != (case["ts"] - EPOCH2000) * 1000000:
-                problems.append(f"header fields: flags {r['flags']:#x}/{case['flags']:#x} build {r['build']}/{case['build']} "
-                                f"pv {r['pv']}/{bcd(case['pv'])} cv {r['cv']}/{bcd(case['cv'])} ts {r['ts']}")
-            if problems:
-                rep.failing("rom21:decoded-content-differs", "the ROM reference decodes something else than was given: " + "; ".join(problems),
-                            {"kind": "build+rom", "case": case, "file": ex[1]})
         except RomReject as rr:
             what = str(rr)
             sig = "rom21:rejects:" + what.split(":")[0].replace(" ", "-")
             if what.startswith("block counts") and sha:
                 sig = "rom21:rejects:block-counts:sha-flag"
-            rep.failing(sig, f"the ROM reference cannot process the file SPSDK built ({what}); flags {case['flags']:#x}",
-                        {"kind": "build+rom", "case": case, "file_len": len(data), "hdr": b["hdr"], "reject": what})
-            # still locate the signature for the model run
-            sl = 208 + cb["raw_size"] + (32 if sha else 0)
-            sig_of[i] = (sl, data[sl:sl + ci["leaf_size"]])
+            verdict = rep.failing(sig, f"the ROM reference cannot process the file SPSDK built ({what}); flags {case['flags']:#x}",
+                                  {"kind": "build+rom", "case": case, "file_len": len(data), "hdr": b["hdr"], "reject": what})
+            if verdict == "known":
+                try:      # keep looking for anything else in this file
+                    r = py_rom21(data, bytes.fromhex(case["kek"]), pub, structural=True)
+                except RomReject as rr2:
+                    rep.failing("rom21:rejects:" + str(rr2).split(":")[0].replace(" ", "-"),
+                                f"the ROM reference cannot process the file SPSDK built ({rr2}); flags {case['flags']:#x}",
+                                {"kind": "build+rom", "case": case, "file_len": len(data), "reject": str(rr2)})
+        # locate the signature for the model run
+        sl = 208 + cb["raw_size"] + (32 if sha else 0)
+        sig_of[i] = (sl, data[sl:sl + ci["leaf_size"]])
+        if r is not None:
+            problems = []
+            if len(r["secs"]) != len(case["secs"]):
+                problems.append(f"{len(r['secs'])} sections decoded, {len(case['secs'])} given")
+            for (uid, cmds), s_ in zip(r["secs"], case["secs"]):
+                if uid != s_["uid"]:
+                    problems.append(f"section id {uid} != {s_['uid']}")
+                want = [spec_cmd(c) for c in s_["cmds"]]
+                if len(want) != len(cmds) or not all(cmd_matches(w, g) for w, g in zip(want, cmds)):
+                    problems.append(f"commands of section {s_['uid']} differ: given {want!r}, ROM sees {cmds!r}"[:600])
+            if r["flags"] != case["flags"] or r["build"] != case["build"] or r["pv"] != bcd(case["pv"]) or r["cv"] != bcd(case["cv"]) \
+                    or r["ts"] != (case["ts"] - EPOCH2000) * 1000000:
+                problems.append(f"header fields: flags {r['flags']:#x}/{case['flags']:#x} build {r['build']}/{case['build']} "
+                                f"pv {r['pv']}/{bcd(case['pv'])} cv {r['cv']}/{bcd(case['cv'])} ts {r['ts']}")
+            if r["signed_len"] != sl or r["sig"] != sig_of[i][1]:
+                problems.append("signed range / signature position")
+            if problems:
+                rep.failing("rom21:decoded-content-differs", "the ROM reference decodes something else than was given: " + "; ".join(problems),
+                            {"kind": "build+rom", "case": case, "file": ex[1]})
         # --- header block counts describe the file (independent of the ROM walk)
         sec_start = 208 + cb["raw_size"] + (32 if sha else 0) + cb["sig_size"]
         if b["hdr"]["image_blocks"] * 16 != len(data) or b["hdr"]["first_boot_tag_block"] * 16 != sec_start:
@@ -618,6 +633,12 @@ def run(tier):
                     exprs.append(f"run_case 1 [{lit(v_case(case, b['cb'], sig))}]")
                     expect.append(("b", data))
                     label.append(("build21", i))
+                    if case["flags"] & SHA_BIT:
+                        # known class C04-F2: the model of the repaired builder is evaluated too, so that an upstream
+                        # repair of the block counts is not reported as a disagreement
+                        exprs.append(f"run_case 8 [{lit(v_case(case, b['cb'], sig))}]")
+                        expect.append(("bfixed", data))
+                        label.append(("build21_fixed", i))
                 elif b["export"][1] in (1, 2) and "cb" not in b:
                     pass          # cert block data unavailable when the export failed: compared through command-level cases
             # parser
@@ -636,7 +657,10 @@ def run(tier):
                 sl = 208 + b["cb"]["raw_size"] + (32 if fl & SHA_BIT else 0)
                 ok = rsa_pkcs1v15_sha256_verify(int(ci["n"]), ci["e"], d[:sl], d[sl:sl + b["cb"]["sig_size"]])
                 exprs.append(f"run_case 2 [VInt {1 if ok else 0}; VInt {b['cb']['sig_size']}; {lit(VB(bytes.fromhex(p['kek'])))}; {lit(VB(d))}]")
-                expect.append(("parse", r))
+                known_class = len(case["secs"]) > 1 or case["flags"] != 0x8008       # C04-F1
+                want_full = {"secs": [[s_[0], s_[3], s_[2]] for s_ in b["built"]], "pv": bcd(case["pv"]), "cv": bcd(case["cv"]),
+                             "build": case["build"], "ts": (case["ts"] - EPOCH2000) * 1000000, "flags": case["flags"]}
+                expect.append(("parse", r, known_class, want_full))
                 label.append(("parse21", i, p))
             # ROM model on SPSDK's bytes
             for i, (case, b) in enumerate(zip(cases, built)):
@@ -674,16 +698,31 @@ def run(tier):
             model = vlib.run_model_cases("c04", "Value Sb2Model", exprs, shard=60 if not thorough else 120, timeout=1500,
                                          jobs=8)
             ndis = {}
+            built_match, repaired = {}, set()
             for e, m, lb in zip(expect, model, label):
                 good = True
                 if e[0] == "b":
                     good = m == e
+                    built_match[lb[1]] = good
+                    if not good and cases[lb[1]]["flags"] & SHA_BIT:
+                        continue          # decided by the build21_fixed entry that follows
+                elif e[0] == "bfixed":
+                    good = built_match.get(lb[1], False) or m == ("b", e[1])
+                    if good and not built_match.get(lb[1], False):
+                        repaired.add("C04-F2")
+                    lb = ("build21",) + tuple(lb[1:])
                 elif e[0] == "parse":
                     r = e[1]
                     if r[0] == "e":
                         good = m[0] == "e" and m[1] in (1, 2)
                     else:
                         good = m[0] == "l" and list(m[1][:9]) == parsed_value(r[1])
+                    if not good and e[2]:
+                        # known class C04-F1: a parser that returns everything that was built (or raises on a damaged
+                        # file) is what the property demands; accept it instead of the modelled defect
+                        if r[0] == "e" or all(r[1][k] == w for k, w in e[3].items()):
+                            good = True
+                            repaired.add("C04-F1")
                 elif e[0] == "rom":
                     r = e[1]
                     if r is None:
@@ -720,6 +759,9 @@ def run(tier):
                 rep.obligation(f"correspondence:{name} model=implementation", ndis.get(name, 0) == 0,
                                f"{ndis.get(name, 0)} disagreements" if ndis.get(name) else "")
             n_model = len(exprs)
+            for fid in sorted(repaired):
+                vlib.log(f"  note: the implementation no longer shows {fid} (outputs match the specification side of the model); "
+                         "the finding entry and the faithful model should be flipped")
         except Exception as ex:  # noqa
             rep.obligation("correspondence:model evaluation", False, repr(ex)[-1500:])
             n_model = 0
